@@ -100,9 +100,16 @@ class FakeEnsembleSampler:
 
 
 class FakeArrayRNG(SymRng):
+    """orng.ArrayRNG stand-in.  The k-th generator constructed within ONE run
+    always starts in the same state (as a generator with a default seed does):
+    two runs of the same program are then comparable; C20 separately records
+    that a generator was constructed at all."""
+
     def __init__(self, backend=None, **kw):
         KERNEL_LOG["rng_constructed"].append(self)
-        super().__init__(LOOP.current.ctx, stream="fresh", counter=1000 * len(KERNEL_LOG["rng_constructed"]))
+        env = LOOP.current
+        env.n_rng_constructed = getattr(env, "n_rng_constructed", 0) + 1
+        super().__init__(env.ctx, stream="fresh", counter=1000 * env.n_rng_constructed)
 
 
 def install_fake_kernels():
